@@ -538,6 +538,48 @@ def _bexpr(ctx, se, t, depth=0):
     return ("raw", show(t, maxdepth=4))
 
 
+_FEEDER = {}
+
+
+def feeder(ctx, fn):
+    """a crate function whose whole effect is to feed one of its parameters to a digest / MAC it
+    received by `&mut`: ("one", data param, mac param) for `mac.update(data)`, ("each", d, m) for
+    `for x in data { mac.update(x) }` (every element, in order), else None"""
+    key = (id(ctx.fb), fn)
+    if key in _FEEDER:
+        return _FEEDER[key]
+    _FEEDER[key] = None
+    se = ctx.flat.run(fn)
+    if se is None:
+        return None
+    body = se.body
+    calls = [(bb, i) for bb, i in sorted(se.term_info.items()) if i.get("k") == "call"]
+    ups = [(bb, i) for bb, i in calls if i["name"] in DIGEST_UPDATE + MAC_UPDATE]
+    if len(ups) != 1:
+        return None
+    ub, ui = ups[0]
+    la = ui.get("locargs", ())
+    if len(la) != 2 or la[0][0] != "ref":
+        return None
+    m = strip(la[0][1])
+    if m[0] != "param":
+        return None
+    loops = for_loops(ctx, se)
+    x = strip(ui["args"][1])
+    if not loops:
+        if len(calls) == 1 and x[0] == "param" and x[1] != m[1]:
+            _FEEDER[key] = ("one", x[1], m[1])
+    elif len(loops) == 1:
+        lp = loops[0]
+        src = strip(lp["init"] or ("?",))
+        others = [i["name"] for bb, i in calls if i is not ui and not (i["name"].endswith("::into_iter") or i["name"].endswith("Iterator>::next") or i["name"].endswith("<impl [T]>::iter"))]
+        idom = cfg.dominators(body)
+        every = all(cfg.dominates(idom, ub, t_) for t_, h_ in cfg.back_edges(body))
+        if src[0] == "param" and src[1] != m[1] and "slice::Iter<" in (lp["resolved"] or "") and not others and every and x == strip(("deref", lp["elem"])):
+            _FEEDER[key] = ("each", src[1], m[1])
+    return _FEEDER[key]
+
+
 def parse_digest(ctx, se, t, depth=0):
     """SHA-1 / HMAC-SHA1 / MD5 transcript of a finalisation term, or None"""
     name = t[1]
@@ -555,6 +597,19 @@ def parse_digest(ctx, se, t, depth=0):
             elif is_call(h) and h[1] in MAC_CHAIN:
                 inputs.append(h[2][1])
                 h = h[2][0]
+            elif h[0] == "after" and is_call(h[1]) and h[1][1] in ctx.fb.bodies and feeder(ctx, h[1][1]) is not None and h[2] == feeder(ctx, h[1][1])[2] - 1:
+                # the state handed to a crate function that feeds it one of its arguments
+                kind, dpar, mpar = feeder(ctx, h[1][1])
+                data = h[1][2][dpar - 1] if dpar - 1 < len(h[1][2]) else ("?",)
+                if kind == "one":
+                    inputs.append(data)
+                else:
+                    dv = strip(data)
+                    if dv[0] == "agg" and dv[1] == "array":
+                        inputs.extend(reversed(dv[4]))      # (the list is reversed below)
+                    else:
+                        inputs.append(("unknown", "elements of " + show(dv, maxdepth=2)))
+                h = h[3]
             else:
                 break
         inputs.reverse()
@@ -1399,3 +1454,35 @@ def verdict_signs(ctx, se, cmp):
         if not changed:
             break
     return sign
+
+
+def scalar_kind(fb, ty):
+    """"int" for an integer type and for a private one-field newtype around one (`KeyIndex(u8)`),
+    else the type's own kind"""
+    if ty is None:
+        return None
+    if ty.k == "adt" and ty.path in fb.adts:
+        fs = fb.adt_fields(ty.path) or []
+        if len(fs) == 1 and fb.ty(fs[0]["ty"]).k == "int":
+            return "int"
+    return ty.k
+
+
+def unwrap_newtype_value(fb, v):
+    """the integer inside `KeyIndex(0)`-like aggregate values of one-field local newtypes"""
+    v = strip(v)
+    while v[0] == "agg" and v[1] == "adt" and v[2] in fb.adts and len(v[4]) == 1 and len(fb.adt_fields(v[2]) or []) == 1:
+        v = strip(v[4][0])
+    return v
+
+
+def peel_newtype(fb, ty):
+    """the type inside private one-field newtypes (`HeaderKey([u8; 20])` -> `[u8; 20]`)"""
+    for _ in range(3):
+        if ty is not None and ty.k == "adt" and ty.path in fb.adts:
+            fs = fb.adt_fields(ty.path) or []
+            if len(fs) == 1:
+                ty = fb.ty(fs[0]["ty"])
+                continue
+        break
+    return ty
